@@ -497,6 +497,10 @@ func writerScenario(s *Sim, params map[string]string) {
 	}
 
 	st := &writerState{s: s, cl: cl, byID: map[string]*wmsg{}}
+	if t.Intn("throttle", 4) == 0 {
+		// responses report a quota throttle (informational: they were served)
+		cl.ThrottleMs, cl.ThrottleEvery = int32(Pick(t, "throttle", 1, 50, 700)), Pick(t, "throttle", 1, 2, 5)
+	}
 	st.raceClose = params["close"] == "race"
 	if st.raceClose && t.Intn("cfg", 2) == 0 {
 		// goroutines may lose the CPU for a moment between any two steps
